@@ -93,7 +93,7 @@ def gen(rng, tier):
     mode = rng.choice(["op", "op", "op", "nonblocking", "nocancel"])
     spec = {"mode": mode, "op": rng.randrange(len(OPS)), "nb": rng.randrange(len(NONBLOCKING)), "val": rng.choice(sorted(VALUES)),
             "state": rng.choice(["resolved", "failed", "pending", "pending", "never"]),
-            "resolve_at": rng.choice([0, 0.05, 0.1, 0.5]), "timeout": rng.choice([None, None, 0.2, 1.0, 30.0]),
+            "resolve_at": rng.choice([0, 0.05, 0.1, 0.5]), "timeout": rng.choice([None, None, 0, 0.0, 0.2, 1.0, 30.0]),
             "resolve_exc": rng.random() < 0.2,
             "ncancel": rng.choice([1, 2, 3]), "cancel_at": rng.choice([0, 0.02, 0.05, 0.1]), "settle": 3.0}
     if spec["state"] == "never" and spec["timeout"] is None and mode == "op":
